@@ -13,16 +13,25 @@ import (
 	"strings"
 )
 
-// Known-finding class ids (mirrored by known_findings.d/C06.json and by the guards of the partial theorems).
+// Known-finding class ids (mirrored by known_findings.d/C06.json and by the guard of the partial theorem).
+// Seven former layout classes (block header, folded/multi-line blank lines, shallow indentation, trailing blanks on
+// continued lines, block values starting with a break, non-ASCII prefix, anchor prefix) were repaired in pint by
+// fix commits 660d1e1, 6c7f5de, 9af0d98, 69b377d, d1959ae: their layouts are still GENERATED (strata below, counted
+// in the histogram) but excuse nothing any more.
 const (
-	c06DqEscape     = "C06-dq-escape"        // double-quoted scalar with an escape other than \" and \\
-	c06FoldedBlank  = "C06-folded-blank"     // folded block / multi-line flow scalar with a blank line inside (line folding drops a break)
-	c06BlockHeader  = "C06-block-header"     // block scalar whose header line (indicators, comment) contains the first byte of the value
-	c06Shallow      = "C06-shallow-indent"   // continuation / block content indented by fewer than 2 columns relative to its key
-	c06TrailSpace   = "C06-continued-trailing-space" // multi-line flow scalar with trailing blanks on a continued line
-	c06LeadingBlank = "C06-block-leading-blank"      // block scalar whose value starts with a line break or a space
-	c06AnchorPrefix = "C06-anchor-prefix"            // anchored scalar (&name value) whose anchor text contains the first byte of the value: the scan starts at the &
-	c06Multibyte    = "C06-multibyte-prefix"         // non-ASCII characters before the scalar on its first line (yaml columns count runes, pint indexes bytes)
+	c06DqEscape = "C06-dq-escape" // double-quoted scalar with an escape that hides the byte (anything but \" \\ and an escaped line break)
+)
+
+// generator strata that used to be known-finding classes (histogram "stratum:<name>")
+const (
+	c06SBlockHeader  = "block-header-contains-first-byte"
+	c06SFoldedBlank  = "folded-or-multiline-with-blank-line"
+	c06SShallow      = "shallow-indent"
+	c06STrailSpace   = "continued-trailing-space"
+	c06SLeadingBlank = "block-leading-blank"
+	c06SAnchorPrefix = "anchor-contains-first-byte"
+	c06SMultibyte    = "multibyte-prefix"
+	c06SEscapedBreak = "dq-escaped-line-break"
 )
 
 type c06Field struct {
@@ -33,6 +42,7 @@ type c06Field struct {
 	C0      int      `json:"c0"`    // region: first column on L0
 	L1      int      `json:"l1"`    // region: last line
 	Classes []string `json:"classes,omitempty"`
+	Strata  []string `json:"strata,omitempty"` // adversarial layout strata the scalar is in (no excuse: measured only)
 	Flow    bool     `json:"flow,omitempty"`
 }
 
@@ -443,7 +453,7 @@ func (p *c06Printer) emitScalar(path string, k c06Kind, keyIndent0 int, flow, al
 		if anchorName != "" {
 			// yaml reports the node at the '&': the scan starts inside the anchor text
 			if strings.IndexByte("&"+anchorName+" ", f.Want[0]) >= 0 {
-				f.Classes = c06AddClass(f.Classes, c06AnchorPrefix)
+				f.Strata = c06AddClass(f.Strata, c06SAnchorPrefix)
 			}
 			if k == kDuration || k == kText {
 				p.anchors = append(p.anchors, c06ScalarAnchor{anchorName, f.Want, k})
@@ -662,16 +672,16 @@ func (p *c06Printer) emitBlock(f c06Field, style string, k c06Kind, v string, ke
 		firstByte = '\n'
 	}
 	if strings.IndexByte(headerLine, firstByte) >= 0 {
-		f.Classes = c06AddClass(f.Classes, c06BlockHeader)
+		f.Strata = c06AddClass(f.Strata, c06SBlockHeader)
 	}
 	if leadingBlank > 0 || leadSpaceFirst > 0 {
-		f.Classes = c06AddClass(f.Classes, c06LeadingBlank)
+		f.Strata = c06AddClass(f.Strata, c06SLeadingBlank)
 	}
 	if shallow {
-		f.Classes = c06AddClass(f.Classes, c06Shallow)
+		f.Strata = c06AddClass(f.Strata, c06SShallow)
 	}
 	if style == "folded" && (blankInside || moreIndented) {
-		f.Classes = c06AddClass(f.Classes, c06FoldedBlank)
+		f.Strata = c06AddClass(f.Strata, c06SFoldedBlank)
 	}
 	return f
 }
@@ -704,7 +714,7 @@ func (p *c06Printer) emitMultiFlow(f c06Field, style string, k c06Kind, v string
 	indent := keyIndent0 + 2 + pick(r, []int{0, 0, 0, 1, 2, 6})
 	if r.Intn(9) == 0 {
 		indent = keyIndent0 + 1
-		f.Classes = c06AddClass(f.Classes, c06Shallow)
+		f.Strata = c06AddClass(f.Strata, c06SShallow)
 	}
 	q := map[string]string{"plainml": "", "sqml": "'", "dqml": `"`}[style]
 	esc := func(s string) string {
@@ -732,13 +742,13 @@ func (p *c06Printer) emitMultiFlow(f c06Field, style string, k c06Kind, v string
 		// trailing blanks on a continued line are dropped by line folding
 		if r.Intn(8) == 0 {
 			p.w(sp(1 + r.Intn(2)))
-			f.Classes = c06AddClass(f.Classes, c06TrailSpace)
+			f.Strata = c06AddClass(f.Strata, c06STrailSpace)
 		}
 		if style == "dqml" && r.Intn(8) == 0 {
-			// escaped line break: joins without a space
+			// escaped line break: joins without a space (the backslash is never matched, the break gets no position)
 			p.w(`\`)
 			sep = ""
-			f.Classes = c06AddClass(f.Classes, c06DqEscape)
+			f.Strata = c06AddClass(f.Strata, c06SEscapedBreak)
 		}
 		p.nl()
 		if sep == " " && r.Intn(7) == 0 {
@@ -747,7 +757,7 @@ func (p *c06Printer) emitMultiFlow(f c06Field, style string, k c06Kind, v string
 				p.nl()
 			}
 			sep = strings.Repeat("\n", nb)
-			f.Classes = c06AddClass(f.Classes, c06FoldedBlank)
+			f.Strata = c06AddClass(f.Strata, c06SFoldedBlank)
 		}
 		want += s + sep
 	}
